@@ -59,6 +59,11 @@ pub mod ffi {
         pub fn sub(self, o: Vec2) -> Vec2 { Vec2 { x: self.x.wrapping_sub(o.x), y: self.y.wrapping_sub(o.y) } }
         #[diplomat::attr(auto, mul)]
         pub fn mul(self, o: Vec2) -> Vec2 { Vec2 { x: self.x.wrapping_mul(o.x), y: self.y.wrapping_mul(o.y) } }
+        #[diplomat::attr(auto, div)]
+        pub fn div(self, o: Vec2) -> Vec2 {
+            let d = |a: i32, b: i32| if b == 0 { 0 } else { a.wrapping_div(b) };
+            Vec2 { x: d(self.x, o.x), y: d(self.y, o.y) }
+        }
     }
 }
 '''
@@ -107,6 +112,8 @@ int main() {
       Vec2 q = u; q += v; CHECK(q.x == wadd(x, y) && q.y == wadd(z, w), "Vec2 += gives (%d,%d)", q.x, q.y);
       Vec2 r = u; r -= v; CHECK(r.x == wsub(x, y) && r.y == wsub(z, w), "Vec2 -= gives (%d,%d)", r.x, r.y);
       Vec2 t = u; t *= v; CHECK(t.x == wmul(x, y) && t.y == wmul(z, w), "Vec2 *= gives (%d,%d)", t.x, t.y);
+      Vec2 qd = u / v; CHECK(qd.x == wdiv(x, y) && qd.y == wdiv(z, w), "Vec2 / gives (%d,%d)", qd.x, qd.y);
+      Vec2 td = u; td /= v; CHECK(td.x == wdiv(x, y) && td.y == wdiv(z, w), "Vec2 /= gives (%d,%d)", td.x, td.y);
       CHECK(u.x == x && u.y == z, "Vec2 operand changed");
     }
   }
